@@ -1,0 +1,122 @@
+//go:build verif
+
+// Verification hooks (build tag verif) for property C04: thin wrappers that let an external harness open one
+// real TSSTORE shard, write rows, force flushes, reach the table store (compaction / merge triggers), dump rows
+// through the ordinary cursor path (CreateCursor) and close the shard. No behaviour of its own.
+package engine
+
+import (
+	"context"
+	"path/filepath"
+	"time"
+
+	"github.com/openGemini/openGemini/engine/executor"
+	"github.com/openGemini/openGemini/engine/immutable"
+	"github.com/openGemini/openGemini/engine/index/tsi"
+	"github.com/openGemini/openGemini/lib/config"
+	"github.com/openGemini/openGemini/lib/index"
+	"github.com/openGemini/openGemini/lib/record"
+	"github.com/openGemini/openGemini/lib/util"
+	"github.com/openGemini/openGemini/lib/util/lifted/influx/meta"
+	"github.com/openGemini/openGemini/lib/util/lifted/vm/protoparser/influx"
+)
+
+// VerifC04Shard wraps one opened shard together with the index builder it writes through.
+type VerifC04Shard struct {
+	sh  *shard
+	idx *tsi.IndexBuilder
+}
+
+// VerifC04OpenShard opens (creating if needed) a TSSTORE shard below dir, the way the package tests do.
+// engine.NewEngine must have been called once before (it initialises the package limiters).
+func VerifC04OpenShard(dir string, opt EngineOptions, shardID uint64, start, end time.Time) (*VerifC04Shard, error) {
+	dataPath := filepath.Join(dir, "data")
+	walPath := filepath.Join(dir, "wal")
+	lockPath := filepath.Join(dataPath, "LOCK")
+	indexPath := filepath.Join(dir, "db0", "index", "data")
+	ident := &meta.IndexIdentifier{OwnerDb: "db0", OwnerPt: 1, Policy: "rp0"}
+	ident.Index = &meta.IndexDescriptor{IndexID: 1, IndexGroupID: 2, TimeRange: meta.TimeRangeInfo{}}
+	ltime := uint64(time.Now().Unix())
+	opts := new(tsi.Options).
+		Ident(ident).
+		Path(indexPath).
+		IndexType(index.MergeSet).
+		EngineType(config.TSSTORE).
+		StartTime(start).
+		EndTime(end).
+		Duration(time.Hour).
+		LogicalClock(1).
+		SequenceId(&ltime).
+		Lock(&lockPath)
+	indexBuilder := tsi.NewIndexBuilder(opts)
+	primaryIndex, err := tsi.NewIndex(opts)
+	if err != nil {
+		return nil, err
+	}
+	primaryIndex.SetIndexBuilder(indexBuilder)
+	indexRelation, _ := tsi.NewIndexRelation(opts, primaryIndex, indexBuilder)
+	indexBuilder.Relations[uint32(index.MergeSet)] = indexRelation
+	if err = indexBuilder.Open(); err != nil {
+		return nil, err
+	}
+	shardDuration := &meta.DurationDescriptor{Tier: util.Hot, TierDuration: time.Hour}
+	tr := &meta.TimeRangeInfo{StartTime: start, EndTime: end}
+	shardIdent := &meta.ShardIdentifier{ShardID: shardID, ShardGroupID: 1, OwnerDb: "db0", OwnerPt: 1, Policy: "rp0"}
+	sh := NewShard(dataPath, walPath, &lockPath, shardIdent, shardDuration, tr, opt, config.TSSTORE, nil)
+	sh.indexBuilder = indexBuilder
+	if err := sh.OpenAndEnable(nil); err != nil {
+		_ = sh.Close()
+		return nil, err
+	}
+	return &VerifC04Shard{sh: sh, idx: indexBuilder}, nil
+}
+
+func (v *VerifC04Shard) ID() uint64 { return v.sh.GetID() }
+func (v *VerifC04Shard) WriteRows(rows []influx.Row, bin []byte) error {
+	return v.sh.WriteRows(rows, bin)
+}
+func (v *VerifC04Shard) ForceFlush()                       { v.sh.ForceFlush() }
+func (v *VerifC04Shard) Compact() error                    { return v.sh.Compact() }
+func (v *VerifC04Shard) TableStore() immutable.TablesStore { return v.sh.GetTableStore() }
+func (v *VerifC04Shard) CloseShard() error                 { return v.sh.Close() }
+func (v *VerifC04Shard) CloseIndex() error                 { return v.idx.Close() }
+func (v *VerifC04Shard) FlushIndex()                       { v.idx.Flush() }
+func (v *VerifC04Shard) DisableCompAndMerge()              { v.sh.DisableCompAndMerge() }
+func (v *VerifC04Shard) EnableCompAndMerge()               { v.sh.EnableCompAndMerge() }
+
+// VerifC04Scan runs schema through the shard's ordinary cursor path and hands every record the cursors return
+// (one series per record) to emit; the record is only valid during the call. Returns the number of cursors.
+func (v *VerifC04Shard) VerifC04Scan(ctx context.Context, schema *executor.QuerySchema, emit func(seriesKey []byte, rec *record.Record)) (int, error) {
+	info, err := v.sh.CreateCursor(ctx, schema)
+	if err != nil || info == nil {
+		return 0, err
+	}
+	defer info.Unref()
+	cursors := info.GetCursors()
+	var first error
+	for _, cur := range cursors {
+		if gc, ok := cur.(*groupCursor); ok {
+			gc.preAgg = true
+			for i := range gc.tagSetCursors {
+				if ts, ok := gc.tagSetCursors[i].(*tagSetCursor); ok {
+					ts.SetNextMethod()
+				}
+			}
+		}
+		for first == nil {
+			rec, si, err := cur.Next()
+			if err != nil {
+				first = err
+				break
+			}
+			if rec == nil {
+				break
+			}
+			emit(si.GetSeriesKey(), rec)
+		}
+		if err := cur.Close(); err != nil && first == nil {
+			first = err
+		}
+	}
+	return len(cursors), first
+}
